@@ -43,7 +43,7 @@ check("C05", "exploration",
       "Explicit refusals (ValueError for non-str/dict list elements; CLI rejecting a file whose first row is no reaction, nothing written) are accepted; longer sequences and other malformed shapes are out of bound.",
       "bounded-exhaustive enumeration of operation (row) sequences x batch layouts x source forms, positional oracle", "DESIGN.md 4/C05")
 check("C06", "model_checking",
-      "(a) every ordered sub-batch of size 1..2 and a 98-triple cyclic covering (thorough: all 720 triples) of a 14-reaction base set (one per pipeline path) and the 15-reaction set under every batch size, rows vs alone-run rows, stats additive and partition-independent; (b) stateless deviation-bounded exploration of the controlled joblib seam: for 3 batches every Parallel call x every non-default task order (bound 1; thorough 2) x isolation inline/per-task (thorough + per-chunk pickling); (c) conformance: the same batch through the real joblib/loky for n_jobs 1,2 (thorough 1,2,4,16) must equal the controlled default schedule; (d) repeated runs on one instance.",
+      "(a) every ordered sub-batch of size 1..2 and a 128-triple cyclic covering (thorough: all 720 triples) of a 16-reaction base set (one per pipeline path or collision class) and the 17-reaction set under every batch size, rows vs alone-run rows, stats additive and partition-independent; (b) stateless deviation-bounded exploration of the controlled joblib seam: for 3 batches every Parallel call x every non-default task order (bound 1; thorough 2) x isolation inline/per-task (thorough + per-chunk pickling); (c) conformance: the same batch through the real joblib/loky for n_jobs 1,2 (thorough 1,2,4,16) must equal the controlled default schedule; (d) repeated runs on one instance.",
       "joblib is modelled by ControlledParallel (submission-order results, chosen execution order, inline or pickled arguments) and bound to the implementation by the real-pool conformance runs; wall-clock timeouts excluded here (C11).",
       "stateless deviation-bounded schedule exploration over owned choice points + bounded-exhaustive sub-batch enumeration, differential oracle vs alone-run", "DESIGN.md 4/C06")
 check("C10", "model_checking",
